@@ -19,6 +19,8 @@ def rundemo():
     r = sh(f"cd {wt} && timeout 600 /venv/bin/python {demo}")
     return r.returncode, (r.stdout + r.stderr)[-400:]
 sh(f"git -C {wt} checkout -q -- .")
+head = sh("git -C /repo rev-parse HEAD").stdout.strip()
+sh(f"git -C {wt} checkout -q --detach {head}")
 base_demo, _ = rundemo()
 a = sh(f"git -C {wt} apply {patch}")
 if a.returncode:
@@ -45,7 +47,7 @@ shutil.copy(patch, f"{d}/patch.diff"); shutil.copy(demo, f"{d}/demo.py")
 if os.path.exists(os.path.join(M, f"{x}.notes.md")): shutil.copy(os.path.join(M, f"{x}.notes.md"), f"{d}/notes.md")
 meta = {"id": sid, "property": prop, "source": "independent sub-agent given only the property text",
         "needs": open(f"{d}/notes.md").read()[:1500] if os.path.exists(f"{d}/notes.md") else "",
-        "confirmed": {"pytest_failed_with_patch": failed, "demo_exit_unpatched": base_demo, "demo_exit_patched": mut_demo,
+        "repo_head": head, "confirmed": {"pytest_failed_with_patch": failed, "demo_exit_unpatched": base_demo, "demo_exit_patched": mut_demo,
                       "how": "patch applied in a scratch worktree of /repo HEAD; pinned pytest command; demo run with and without"},
         "detected_by": {k: (v["exit"] == 1) for k, v in results.items()}, "check_results": results}
 json.dump(meta, open(f"{d}/meta.json", "w"), indent=1)
